@@ -94,6 +94,13 @@ structure OutI where
   sentAt : Time
 deriving Repr
 
+/-- what the ledger knows about one (name, nonce) key of the dead nonce list -/
+inductive DState
+  | absent                 -- certainly not listed
+  | present (e : Time)     -- certainly listed, expiring exactly at `e`
+  | unknown (u : Time)     -- may be listed; certainly gone after `u`
+deriving Repr
+
 structure SpSt where
   now : Time := 0
   faces : List Face := []
@@ -110,13 +117,11 @@ structure SpSt where
   /-- label ↦ (key, issue time) -/
   issued : List (Nat × Key × Time) := []
   lastTok : List (Name × Nat) := []
-  /-- (name, nonce) certainly on the dead nonce list until the given instant -/
-  dead : List (Name × Nat × Time) := []
+  /-- dead nonce list as far as it is known (keys not listed here are `absent`) -/
+  dnl : List ((Name × Nat) × DState) := []
   /-- names of Data that may be cached -/
   cached : List Name := []
   usedNonce : List (Name × Nat) := []
-  /-- when (name, nonce) first became a possible dead-nonce-list key -/
-  firstSeen : List (Name × Nat × Time) := []
   lastPit : Nat := 0
   lastCs : Nat := 0
   /-- several forwarding threads (only used to name the class of a violation) -/
@@ -145,15 +150,51 @@ def keyPossible (sp : SpSt) (k : Key) : Bool :=
   | some t => sp.now ≤ t + slack
   | none => false
 
+def Pend.certain (p : Pend) (now : Time) : Bool := now < p.certainUntil
+
+/-- state of a dead-nonce-list key at instant `t` (a `present` record is reaped by the first tick after
+    its expiry) -/
+def dGetAt (sp : SpSt) (k : Name × Nat) (t : Time) : DState :=
+  match sp.dnl.find? (·.1 == k) with
+  | none => .absent
+  | some (_, .present e) => if t > e + slack then .absent else .present e
+  | some (_, .unknown u) => if t > u then .absent else .unknown u
+  | some (_, .absent) => .absent
+
+def dGet (sp : SpSt) (k : Name × Nat) : DState := dGetAt sp k sp.now
+
+def dSet (sp : SpSt) (k : Name × Nat) (d : DState) : SpSt :=
+  { sp with dnl := (k, d) :: sp.dnl.filter (·.1 != k) }
+
+/-- DeadNonceList.Insert at an instant not later than `t` (and not earlier than the previous operation):
+    a no-op while the key is listed (the old expiry stays); `sure` = the insertion certainly takes
+    place, otherwise it may or may not -/
+def dInsertAt (sp : SpSt) (k : Name × Nat) (sure : Bool) (t : Time) : SpSt :=
+  let later := t + sp.dnlLife + slack
+  match dGetAt sp k t with
+  | .absent => dSet sp k (if sure then .present (t + sp.dnlLife) else .unknown later)
+  | .present e => if t < e then dSet sp k (.present e) else dSet sp k (.unknown later)
+  | .unknown u => dSet sp k (.unknown (max u later))
+
+def dInsert (sp : SpSt) (k : Name × Nat) (sure : Bool) : SpSt := dInsertAt sp k sure sp.now
+
+def certainlyDead (sp : SpSt) (k : Name × Nat) : Bool :=
+  match dGet sp k with
+  | .present e => sp.now < e
+  | _ => false
+
 def advance (sp : SpSt) (dt : Nat) : SpSt :=
   let now := sp.now + dt
   let sp := { sp with now := now }
+  /- PIT entries that may have expired by now were finalised: the nonces of their out-records may have
+     been put on the dead nonce list (an entry with a certainly live in-record has not expired) -/
+  let sp := sp.outs.foldl (fun sp o =>
+    if sp.pends.any (fun p => p.key == o.key && p.certain now) then sp
+    else dInsertAt sp (o.key.name, o.nonce) false
+      (match horizonOf sp o.key with | some h => min now (h + slack) | none => now)) sp
   { sp with
     pends := sp.pends.filter fun p => keyPossible sp p.key
-    outs := sp.outs.filter fun o => keyPossible sp o.key
-    dead := sp.dead.filter fun d => now < d.2.2 }
-
-def Pend.certain (p : Pend) (now : Time) : Bool := now < p.certainUntil
+    outs := sp.outs.filter fun o => keyPossible sp o.key }
 
 def valLocalhost (n : Name) : Bool := isLocalhost n
 
@@ -199,7 +240,7 @@ def onInterest (sp : SpSt) (f : FaceId) (i : Interest) (obs : List Obs) (pit cs 
   let strat := lpmStrat sp.strat i.name
   let nonce := i.nonce.getD 0
   let fresh := i.nonce.isSome && !(sp.usedNonce.contains (i.name, nonce))
-  let certDead := sp.dead.any fun d => d.1 == i.name && d.2.1 == nonce && sp.now < d.2.2
+  let certDead := certainlyDead sp (i.name, nonce)
   let certDup := sp.pends.any fun p => p.key == key && p.face != f && p.nonces == [nonce] && p.certain sp.now
   let possDup := sp.pends.any fun p => p.key == key && p.face != f && p.nonces.contains nonce
   let droppedSure := inF.isNone || i.hop == some 0 || inboundViolation || i.nonce.isNone || certDead || certDup
@@ -272,8 +313,6 @@ def onInterest (sp : SpSt) (f : FaceId) (i : Interest) (obs : List Obs) (pit cs 
      else [])
   -- ---------------------------------------------------------------- ledger update
   let sp1 := { sp with usedNonce := if i.nonce.isSome then (i.name, nonce) :: sp.usedNonce else sp.usedNonce,
-                       firstSeen := if i.nonce.isSome && !(sp.firstSeen.any fun x => x.1 == i.name && x.2.1 == nonce)
-                                    then (i.name, nonce, sp.now) :: sp.firstSeen else sp.firstSeen,
                        lastPit := pit, lastCs := cs }
   if droppedSure then (sp1, fails)
   else
@@ -297,20 +336,17 @@ def onInterest (sp : SpSt) (f : FaceId) (i : Interest) (obs : List Obs) (pit cs 
         | none =>
           { key := key, face := f, toks := [i.tok], nonces := [nonce], since := sp.now,
             certainUntil := if processed then dl else 0, possibleUntil := dl } :: others
-    let dead := match old with
+    /- an Interest from a face that already holds an in-record puts the in-record's previous nonce on
+       the dead nonce list: certainly, if the in-record and its nonce are certain and this Interest was
+       certainly processed; possibly, for every nonce the in-record may hold -/
+    let sp1 := match old with
       | some p =>
-        match p.nonces with
-        | [x] =>
-          /- Insert is a no-op while an older record of the same key is still listed, and that one may
-             have been made any time since the key first became possible: the record is certain only
-             until firstSeen + lifetime -/
-          let t0 := match sp.firstSeen.find? (fun y => y.1 == i.name && y.2.1 == x) with
-            | some y => y.2.2
-            | none => sp.now
-          if processed && dsends.isEmpty && p.certain sp.now && sp.now < t0 + sp.dnlLife
-          then (i.name, x, t0 + sp.dnlLife) :: sp1.dead else sp1.dead
-        | _ => sp1.dead
-      | none => sp1.dead
+        if dsends.isEmpty then
+          match p.nonces with
+          | [x] => dInsert sp1 (i.name, x) (processed && p.certain sp.now)
+          | xs => xs.foldl (fun acc x => dInsert acc (i.name, x) false) sp1
+        else sp1
+      | none => sp1
     let outs := isends.foldl (fun acc o => ⟨key, o.face, nonce, sp.now⟩ :: acc.filter (fun x => !(x.key == key && x.face == o.face))) sp1.outs
     let issued := isends.foldl (fun acc o => match labelOfTok o.tok with
       | some k => if acc.any (·.1 == k) then acc else (k, key, sp.now) :: acc
@@ -318,7 +354,7 @@ def onInterest (sp : SpSt) (f : FaceId) (i : Interest) (obs : List Obs) (pit cs 
     let lastTok := isends.foldl (fun acc o => match labelOfTok o.tok with
       | some k => (o.name, k) :: acc.filter (·.1 != o.name)
       | none => acc) sp1.lastTok
-    ({ sp1 with pends := pends, dead := dead, outs := outs, issued := issued, lastTok := lastTok,
+    ({ sp1 with pends := pends, outs := outs, issued := issued, lastTok := lastTok,
                 horizon := setHorizon sp1.horizon key dl }, fails)
 
 /-- token of an incoming Data as the ledger sees it -/
@@ -404,7 +440,8 @@ def onData (sp : SpSt) (f : FaceId) (d : Data) (tk : STok) (obs : List Obs) (pit
        may from now on be dead under the Data's name -/
     let nonces := (sp.usedNonce.map (·.2)).eraseDups
     let used := nonces.foldl (fun acc n => if acc.contains (d.name, n) then acc else (d.name, n) :: acc) sp.usedNonce
-    let seen := nonces.foldl (fun acc n => if acc.any (fun x => x.1 == d.name && x.2.1 == n) then acc else (d.name, n, sp.now) :: acc) sp.firstSeen
-    ({ sp0 with pends := pends, outs := outs, cached := cached, usedNonce := used, firstSeen := seen }, fails)
+    -- … and the nonces of the out-records of possibly existing entries may be listed right now
+    let sp0 := ((sp.outs.map (·.nonce)).eraseDups).foldl (fun acc n => dInsert acc (d.name, n) false) sp0
+    ({ sp0 with pends := pends, outs := outs, cached := cached, usedNonce := used }, fails)
 
 end Ndn.Fw.Spec
